@@ -4,6 +4,14 @@ import legs
 
 CT = {"tspec": "ChmuxTrace.tla", "tcfg": "ChmuxTrace.cfg"}
 PT = {"tspec": "ChmuxPeerTrace.tla", "tcfg": "ChmuxPeerTrace.cfg"}
+RT = {"tspec": "RobsTrace.tla", "tcfg": "RobsTrace.cfg"}
+SIM = ["-simulate", "num={N}", "-depth", "8", "-seed", "{SEED}"]
+
+
+def robs_remote(d, i):
+    d["remote"] = d["coll"] != "list"
+    d["seed"] = i + 1
+    return d
 
 
 def data_leg(name, n, opts=None, require=None, nontrivial=None):
@@ -187,6 +195,27 @@ CHECKS = {
                  require={r'"ep":2': 200, r'"ev":"rw_cancel"': 5}, nontrivial=[r'"ev":"rw_commit_done"', r'"ep":2']),
             dict(kind="trace", name="rw_cut", workload="rwlock", n=(60, 1000), opts={"remote": 1, "cut": 1}, tspec="RwLockTrace.tla", tcfg="RwLockTrace.cfg",
                  require={r'"ev":"fault"': 50}, nontrivial=[r'"ev":"fault"']),
+        ],
+    },
+    "C13": {
+        "rule": "operation scripts generated by TLC from RobsGen (random walks over every mutator of every collection type with every parameter over "
+                "3 values, length <= 4, subscription point and mode chosen by TLC) executed on the real collections with a real mirror (local and across "
+                "a real connection) and a hand-written event consumer; distinct = distinct scripts; non-trivial = at least one event was emitted after "
+                "the subscription point",
+        "assumptions": ["element type of the hash set compares and hashes by key only (exposes replace vs insert)",
+                        "Robs.tla is the reference semantics of the std collections' operations"],
+        "legs": [
+            model("RobsMC.cfg", spec="RobsMC.tla", min_states=10000),
+            model("RobsMC_F5.cfg", spec="RobsMC.tla", expect_violation="MirrorEqualsCollectionAll"),
+            dict(RT, kind="custom", fn=legs.gen_replay, name="robs_paths", gen_spec="RobsGen.tla", gen_cfg="RobsGen.cfg", depth=(4, 5),
+                 gen_extra=SIM, gen_num=(400, 4000), exclude="retain_mut", limit=(4000, 60000), workload="robs_script",
+                 nontrivial=[r'"evs":\[\{'], min_behaviours=1000),
+            dict(RT, kind="custom", fn=legs.gen_replay, name="robs_remote", gen_spec="RobsGen.tla", gen_cfg="RobsGen.cfg", depth=(3, 4),
+                 gen_extra=SIM, gen_num=(200, 2000), exclude="retain_mut", augment=robs_remote, limit=(300, 5000), workload="robs_script",
+                 nontrivial=[r'"evs":\[\{'], min_behaviours=200),
+            dict(RT, kind="custom", fn=legs.gen_replay, name="robs_known", gen_spec="RobsGen.tla", gen_cfg="RobsGen.cfg", depth=(2, 3),
+                 gen_extra=SIM, gen_num=(300, 2000), include="retain_mut", limit=(40, 400), workload="robs_script", max_rounds=3,
+                 nontrivial=[r'retain_mut'], min_behaviours=5),
         ],
     },
 }
